@@ -25,7 +25,6 @@ def run(ctx):
     ]
     ok, log = ctx.coq_build(["props/C15.vo"])
     from harness import c15_impl as impl
-    from harness import c15_pp as pp
     before = len(ctx.failures)
     eps = impl.eps_ms()
     cases = []
@@ -43,18 +42,25 @@ def run(ctx):
         for K, T, t0, ev in small_patterns():
             o = impl.run_schedule(K, T, ev, exact=True, t0=t0)
             record(ctx, cases, K, T, t0, ev, o, eps, "pattern")
+    import time as _t
+    tm = {}
+    tm['schedules'] = round(_t.time() - ctx.t0, 1)
     # 2. correspondence with the Coq model
     model_ok = ok
     if not ok:
         model_ok, _ = ctx.coq_build(["lib/Timers.vo"])
     if model_ok:
         correspond(ctx, cases)
+    tm['correspond'] = round(_t.time() - ctx.t0, 1)
     # 3. float seconds, unmodified EPSILON
     float_oracle(ctx, impl)
     # 4. pending calls fail with DeadReferenceError on teardown
     pending_calls(ctx, impl, eps)
+    tm['float+calls'] = round(_t.time() - ctx.t0, 1)
     # 5. PING / PONG
-    pp.run(ctx, impl, model_ok)
+    pingpong(ctx, impl, model_ok)
+    tm['pingpong'] = round(_t.time() - ctx.t0, 1)
+    ctx.extra['cumulative_s'] = tm
     if not ok and len(ctx.failures) == before:
         ctx.fail("proof-broken", "theorem closure props/C15.vo no longer builds against the regenerated gen/TimersGen.v:\n"
                  + log[-2500:], replay=dict(log=log[-6000:]), has_input=False)
@@ -82,7 +88,7 @@ def gen_schedule(rng, impl):
     def tick_through(limit, inclusive):
         """punctual reactor: turn at every pending expiry before `limit`"""
         nonlocal t
-        for _ in range(200):
+        for _ in range(30):
             pend = [x for x in r.pending() if x is not None]
             if not pend:
                 return
@@ -95,9 +101,12 @@ def gen_schedule(rng, impl):
             else:
                 return
 
+    closed = False
     for i in range(n):
         pend = [x for x in r.pending() if x is not None]
         x = rng.random()
+        if closed:      # Twisted delivers neither data nor a second connectionLost after connectionLost
+            x = x * 0.40
         if x < 0.40:
             if pend:
                 e = max(t, min(pend))
@@ -131,6 +140,7 @@ def gen_schedule(rng, impl):
                 tick_through(u, rng.random() < 0.5)
             r.step("close", u)
             t = u
+            closed = True
     # idle tail: long enough for both bounds
     horizon = t + 2 * max(K or 0, T or 0) + eps + rng.choice([1, 2, 1500])
     if punctual or rng.random() < 0.5:
@@ -151,9 +161,8 @@ def gen_schedule(rng, impl):
 
 
 def small_patterns():
-    """every sequence of <= 4 arrival gaps from a boundary set, punctual reactor (explicit ticks computed by a reference
-    expansion: the tick times are whatever is pending in the model -- here simply all multiples are covered by ticking every ms
-    grid point in {expiries}); kept simple: ticks at every candidate instant"""
+    """thorough tier: every sequence of <= 3 arrival gaps from a boundary set, with reactor turns at every instant
+    (arrival or connection time) + k * (timeout + eps)"""
     import itertools
     out = []
     K, T, eps = 2000, 3000, 100
@@ -166,7 +175,6 @@ def small_patterns():
                 cur += g
                 arr.append(cur)
             horizon = cur + 2 * T + eps + 2
-            # reference expansion of a punctual reactor is done against the real timers in run(): use explicit dense ticks
             ticks = set()
             for base in [0] + arr:
                 for k in range(0, 5):
@@ -274,7 +282,7 @@ def judge(K, T, eps, t0, events, o, tol, results=None):
     nbad = sum(1 for k, _ in events if k == "rxbad")
     if len(o.lose) < len(o.torn) or any(x not in o.lose for x in o.torn):
         bad.append(("oracle/teardown-keeps-transport", "connectionTimedOut did not call transport.loseConnection()"))
-    if len(o.lose) > len(o.torn) + min(nbad, 1) * 1 + (nbad > 0) * 0 and len(o.lose) > len(o.torn) + nbad:
+    if len(o.lose) > len(o.torn) + min(nbad, 1):
         bad.append(("oracle/spurious-loseConnection", "loseConnection called %d times for %d teardown(s)" % (len(o.lose), len(o.torn))))
     for i, st in enumerate(o.trace):
         closed = seen_close is not None and i > seen_close
@@ -316,15 +324,20 @@ Eval vm_compute in map obs cases.
 def correspond(ctx, cases):
     nbad = 0
     total = 0
-    for k in range(0, len(cases), 400):
-        part = cases[k:k + 400]
+    STEP = 300
+    jobs = []
+    for k in range(0, len(cases), STEP):
+        part = cases[k:k + STEP]
         lines = ["(%s, %s, %s, %s)" % (coq_opt(K, coq_Z), coq_opt(T, coq_Z), coq_Z(t0), coq_list(ev, coq_ev))
                  for (K, T, t0, ev, o) in part]
-        try:
-            (vals,) = ctx.coq_eval("C15_cases_%d" % (k // 400), BODY % coq_list(lines), requires=REQ)
-        except common.CoqEvalError as e:
-            ctx.fail("correspondence-broken", "the model could not be evaluated: " + str(e)[-1500:], has_input=False)
+        jobs.append(("C15_cases_%d" % (k // STEP), BODY % coq_list(lines)))
+    results = par_eval(ctx, jobs)
+    for ji, res in enumerate(results):
+        part = cases[ji * STEP:(ji + 1) * STEP]
+        if isinstance(res, Exception):
+            ctx.fail("correspondence-broken", "the model could not be evaluated: " + str(res)[-1500:], has_input=False)
             return
+        (vals,) = res
         for (K, T, t0, ev, o), m in zip(part, vals):
             total += 1
             ctx.traces += 1
@@ -388,8 +401,9 @@ def float_oracle(ctx, impl):
                 tick_through(u - 0.0005)
             if rng.random() < 0.04:
                 r.step("close", u)
-            else:
-                r.step("rx", u)
+                t = u
+                break
+            r.step("rx", u)
             t = u
         horizon = t + 2 * max(K or 0, T or 0) + eps + 0.5
         tick_through(horizon)
@@ -466,3 +480,209 @@ def pending_calls(ctx, impl, eps):
         for sig, what in bad:
             ctx.fail(sig, what + "  [K=%r T=%r calls=%d events=%r]" % (K, T, ncalls, ev),
                      replay=dict(K=K, T=T, calls=ncalls, events=ev))
+
+
+# ------------------------------------------------------------------------------------------ PING / PONG
+
+def messages():
+    import struct
+    f = struct.unpack("!d", b"\x40\x8e\x8f\x8e\x8f\x8e\x8f\x8e")[0]
+    deep = []
+    for i in range(12):
+        deep = [deep, i]
+    return [
+        [1, 2, [3, [4, b"by\x8e\x8ftes", "text"]], {"k": (1, 2.5, None, True)}, 2 ** 70, -2 ** 70, -5, {1, 2}, b"", ""],
+        {"a": [{"b": [[], [[]], ()]}], 1: "x" * 300},
+        deep,
+        "hello",
+        [b"\x8e\x8f" * 5, "\x8e", f, -0.0, 1e300, 2 ** 448, -(2 ** 31) - 1],
+        (frozenset([b"a", b"b"]), [True, False, None], {"n": {"m": {"l": [0]}}}),
+    ]
+
+
+def numbers(rng):
+    return [0, 1, 127, 128, 2 ** 31, 2 ** 64 + 5, 2 ** 448 - 1, rng.randrange(2 ** 448), rng.randrange(2 ** 100)]
+
+
+def pingpong(ctx, impl, model_ok):
+    rng = ctx.rng
+    PINGB, PONGB = impl.PING[0], impl.PONG[0]
+    tokcases = []      # (message index, insertions, PONG numbers the implementation answered)
+    origs = {}
+    nums = numbers(rng)
+    for mi, msg in enumerate(messages()):
+        data = impl.serialize(msg)
+        toks = impl.tokenize(data)
+        base = impl.decode(data)
+        want = impl.canon(msg)
+        if base["status"] != "ok" or impl.canon(base["obj"]) != want or base["written"]:
+            ctx.fail("harness/pingpong-baseline", "message %d does not round-trip without any PING: %r" % (mi, base), has_input=False)
+            continue
+        bounds = [t[0] for t in toks] + [len(data)]
+        plans = []
+        k = 0
+        for bi in range(len(bounds)):          # every token boundary, PING and PONG, numbers cycled
+            for kind in ("PING", "PONG"):
+                plans.append([(bi, kind, nums[k % len(nums)])])
+                k += 1
+        for _ in range(ctx.n(12, 200)):        # several insertions at once (also several at one boundary)
+            plans.append(sorted(((rng.randrange(len(bounds)), rng.choice(["PING", "PONG"]), rng.choice(nums))
+                                 for _ in range(rng.randint(2, 8))), key=lambda x: x[0]))
+        for plan in plans:
+            out = bytearray()
+            itoks = []
+            pi = 0
+            for bi in range(len(bounds)):
+                while pi < len(plan) and plan[pi][0] == bi:
+                    _, kind, n = plan[pi]
+                    out += impl.ping_bytes(n, impl.PING if kind == "PING" else impl.PONG)
+                    itoks.append((n, PINGB if kind == "PING" else PONGB))
+                    pi += 1
+                if bi < len(toks):
+                    out += data[toks[bi][0]:toks[bi][1]]
+                    itoks.append((toks[bi][2], toks[bi][3]))
+            out = bytes(out)
+            want_pongs = [n for (_, kind, n) in plan if kind == "PING"]
+            want_written = b"".join(impl.ping_bytes(n, impl.PONG) for n in want_pongs)
+            chunkings = [None, [1] * len(out)]
+            if len(plan) > 1 or rng.random() < 0.25:
+                ch = []
+                left = len(out)
+                while left > 0:
+                    c = min(left, rng.randint(1, 9))
+                    ch.append(c)
+                    left -= c
+                chunkings.append(ch)
+            for ch in chunkings:
+                r = impl.decode(out, ch)
+                ctx.case(["pp", mi, [(b, kd, str(n)) for (b, kd, n) in plan], "whole" if ch is None else ("bytewise" if len(ch) == len(out) else ch)],
+                         nontrivial=True)
+                ctx.hist("origin", "pingpong")
+                why = None
+                if r["status"] != "ok":
+                    why = ("oracle/ping-disturbs-message", "decoding ended as %s (%s)" % (r["status"], r["exc"]))
+                elif impl.canon(r["obj"]) != want:
+                    why = ("oracle/ping-disturbs-message", "decoded object differs from the message sent")
+                elif r["written"] != want_written:
+                    got = [(t[2], t[3]) for t in safe_tokenize(impl, r["written"])]
+                    why = ("oracle/pong-mismatch", "PINGs %r were answered with %r" % (want_pongs, got))
+                if why:
+                    ctx.fail(why[0], why[1] + "  [message %d, insertions (boundary, token, number) %r, chunking %s]"
+                             % (mi, plan, "whole" if ch is None else ch[:20]),
+                             replay=dict(message=mi, plan=[(b, kd, str(n)) for (b, kd, n) in plan], chunks=ch, data=out.hex()))
+            tokcases.append((mi, [(b, (n, PINGB if kd == "PING" else PONGB)) for (b, kd, n) in plan], want_pongs))
+        origs[mi] = [(t[2], t[3]) for t in toks]
+    # single tokens: PING n alone -> exactly PONG n; PONG n alone -> nothing; numbers beyond 64 header digits are refused
+    singles = []
+    for n in nums + [2 ** 448, 2 ** 448 + 12345, 2 ** 455]:
+        for kind, tokb in (("PING", impl.PING), ("PONG", impl.PONG)):
+            data = impl.ping_bytes(n, tokb)
+            sent = impl.real_send("send" + kind, n)
+            r = impl.decode(data)
+            ctx.case(["single", kind, str(n)], nontrivial=True)
+            refused = r["status"] == "error" and "token prefix is limited" in (r["exc"] or "")
+            singles.append((n, kind, sent, refused, r["written"]))
+            if sent != data:
+                ctx.fail("oracle/ping-encoding", "send%s(%d) wrote %r" % (kind, n, sent), replay=dict(n=str(n), kind=kind))
+            if n < 2 ** 448:
+                exp = impl.ping_bytes(n, impl.PONG) if kind == "PING" else b""
+                if r["status"] == "error" or r["written"] != exp:
+                    ctx.fail("oracle/pong-mismatch", "%s %d alone: status %s, reply %r, expected %r" % (kind, n, r["status"], r["written"], exp),
+                             replay=dict(n=str(n), kind=kind))
+    if model_ok:
+        pp_correspond(ctx, impl, origs, tokcases, singles)
+
+
+def safe_tokenize(impl, data):
+    try:
+        return impl.tokenize(data)
+    except Exception:
+        return [(0, 0, -1, -1)]
+
+
+PPBODY = """
+Local Open Scope Z_scope.
+Definition teq (a b : Z * Z) : bool := (fst a =? fst b) && (snd a =? snd b).
+Fixpoint leq (a b : list (Z * Z)) : bool :=
+  match a, b with [] , [] => true | x :: a', y :: b' => teq x y && leq a' b' | _, _ => false end.
+(* insert the planned PING/PONG tokens at their token boundaries *)
+Fixpoint weave (i : nat) (orig : list (Z * Z)) (plan : list (Z * (Z * Z))) {struct orig} : list (Z * Z) :=
+  let here := map snd (filter (fun p => fst p =? Z.of_nat i) plan) in
+  match orig with [] => here | t :: r => here ++ t :: weave (S i) r plan end.
+Definition origs : list (list (Z * Z)) := %s.
+Definition chk (x : nat * list (Z * (Z * Z))) := let '(mi, plan) := x in
+  let orig := nth mi origs [] in
+  let '(d, p) := rx_tokens (weave 0 orig plan) in (leq d orig, p).
+Definition hcode (h : hres) : list Z := match h with HNeed => [0] | HBad => [1] | HTok a b r => [2; a; b; Z.of_nat (List.length r)] end.
+Definition rcode (r : res (list Z)) : list Z := match r with Ok l => l | Exc _ => [-1] end.
+Definition tokcases : list (nat * list (Z * (Z * Z))) := %s.
+Eval vm_compute in map chk tokcases.
+Definition singles : list (Z * Z * list Z) := %s.
+Eval vm_compute in map (fun '(n, ty, bytes) =>
+   (rcode (if ty =? tok_PING then sendPING n [] else sendPONG n []), hcode (scan_token bytes),
+    match scan_token bytes with HTok h t _ => rcode (reply_bytes h t) | _ => [-2] end)) singles.
+"""
+
+
+def par_eval(ctx, jobs):
+    """jobs: list of (name, body) -> list of parsed results (or the CoqEvalError), coqc runs in parallel"""
+    from concurrent.futures import ThreadPoolExecutor
+
+    def one(j):
+        try:
+            return ctx.coq_eval(j[0], j[1], requires=REQ)
+        except common.CoqEvalError as e:
+            return e
+    with ThreadPoolExecutor(max_workers=6) as ex:
+        return list(ex.map(one, jobs))
+
+
+def pp_correspond(ctx, impl, origs, tokcases, singles):
+    ct = lambda t: "(%s, %s)" % (coq_Z(t[0]), coq_Z(t[1]))
+    cp = lambda p: "(%s, %s)" % (coq_Z(p[0]), ct(p[1]))
+    nbad = 0
+    total = 0
+    STEP = 400
+    ol = coq_list([coq_list(origs.get(i, []), ct) for i in range(max(origs) + 1 if origs else 0)])
+    jobs = []
+    for k in range(0, max(len(tokcases), 1), STEP):
+        part = tokcases[k:k + STEP]
+        lines = ["(%d%%nat, %s)" % (mi, coq_list(plan, cp)) for (mi, plan, _) in part]
+        sl = []
+        if k == 0:
+            sl = ["(%s, %s, %s)" % (coq_Z(n), coq_Z(impl.PING[0] if kind == "PING" else impl.PONG[0]),
+                                    coq_list(list(sent), coq_Z)) for (n, kind, sent, refused, written) in singles]
+        jobs.append(("C15_pp_%d" % (k // STEP), PPBODY % (ol, coq_list(lines), coq_list(sl))))
+    results = par_eval(ctx, jobs)
+    for ji, res in enumerate(results):
+        k = ji * STEP
+        part = tokcases[k:k + STEP]
+        if isinstance(res, Exception):
+            ctx.fail("correspondence-broken", "the PING/PONG model could not be evaluated: " + str(res)[-1500:], has_input=False)
+            return
+        v1, v2 = res
+        for (mi, plan, pongs), (same, mp) in zip(part, v1):
+            total += 1
+            ctx.traces += 1
+            if same is not True or list(mp) != list(pongs):
+                nbad += 1
+                ctx.fail("correspondence/pingpong", "token-level model on message %d, insertions %r: delivered==original %r, PONG "
+                         "numbers %r; the implementation decoded the original message and answered %r" % (mi, plan, same, mp, pongs),
+                         replay=dict(message=mi, plan=[(b, str(t[0]), t[1]) for b, t in plan]), has_input=False)
+        if k == 0:
+            for (n, kind, sent, refused, written), (msent, mscan, mreply) in zip(singles, v2):
+                total += 1
+                ctx.traces += 1
+                diffs = []
+                if list(msent) != list(sent):
+                    diffs.append("send%s(%d): model bytes %r, implementation %r" % (kind, n, msent, list(sent)))
+                if refused != (mscan == [1]):
+                    diffs.append("header scan of %s %d: model %r, implementation refused=%r" % (kind, n, mscan, refused))
+                if not refused and mscan[:1] == [2]:
+                    if mscan[1] != n or list(mreply) != list(written):
+                        diffs.append("%s %d: model header %r reply %r, implementation reply %r" % (kind, n, mscan[1], mreply, list(written)))
+                if diffs:
+                    nbad += 1
+                    ctx.fail("correspondence/pingpong", "; ".join(diffs), replay=dict(n=str(n), kind=kind), has_input=False)
+    ctx.extra["pingpong_correspondence_cases"] = total
+    ctx.extra["pingpong_correspondence_disagreements"] = nbad
